@@ -125,8 +125,10 @@ type walkResult struct {
 	End       *big.Rat
 	Exhausted bool // ran out of liquidity before the specified amount was used up
 	// per step: fee and active liquidity (C08's reference)
-	StepFee []*big.Rat
-	StepLiq []*big.Rat
+	StepFee  []*big.Rat
+	StepLiq  []*big.Rat
+	StepFrom []*big.Rat
+	StepTo   []*big.Rat
 }
 
 // walk follows the curve. zeroForOne: token0 in, price moves down. exactIn: amt is the total input
@@ -170,6 +172,8 @@ func (c *curve) walk(s0 *big.Rat, zeroForOne, exactIn bool, amt, sf *big.Rat) wa
 				res.Out.Add(res.Out, outToB)
 				res.StepFee = append(res.StepFee, fee)
 				res.StepLiq = append(res.StepLiq, L)
+				res.StepFrom = append(res.StepFrom, s)
+				res.StepTo = append(res.StepTo, nb)
 				rem.Sub(rem, gross)
 				s = nb
 				continue
@@ -189,6 +193,8 @@ func (c *curve) walk(s0 *big.Rat, zeroForOne, exactIn bool, amt, sf *big.Rat) wa
 			res.Fee.Add(res.Fee, fee)
 			res.StepFee = append(res.StepFee, fee)
 			res.StepLiq = append(res.StepLiq, L)
+			res.StepFrom = append(res.StepFrom, s)
+			res.StepTo = append(res.StepTo, sn)
 			rem = new(big.Rat)
 			s = sn
 			break
@@ -202,6 +208,8 @@ func (c *curve) walk(s0 *big.Rat, zeroForOne, exactIn bool, amt, sf *big.Rat) wa
 			res.Out.Add(res.Out, outToB)
 			res.StepFee = append(res.StepFee, fee)
 			res.StepLiq = append(res.StepLiq, L)
+			res.StepFrom = append(res.StepFrom, s)
+			res.StepTo = append(res.StepTo, nb)
 			rem.Sub(rem, outToB)
 			s = nb
 			continue
@@ -223,6 +231,8 @@ func (c *curve) walk(s0 *big.Rat, zeroForOne, exactIn bool, amt, sf *big.Rat) wa
 		res.Out.Add(res.Out, rem)
 		res.StepFee = append(res.StepFee, fee)
 		res.StepLiq = append(res.StepLiq, L)
+		res.StepFrom = append(res.StepFrom, s)
+		res.StepTo = append(res.StepTo, sn)
 		rem = new(big.Rat)
 		s = sn
 		break
